@@ -134,7 +134,39 @@ def run(repo, rep, tier):
                 [k.value for k in c.keywords]) for c in toks)
         rep.check(okf, "R11.4", tq, "tokens are stamped with the file name",
                   construct="token-filename-forwarded", where=L.where(tf))
+    filename_chain(repo, rep, "R11.4")
     L.state_rule(repo, rep)
+
+
+def filename_chain(repo, rep, rule="R11.4"):
+    """The template's file name reaches the tokenizer: parse() hands it to
+    the program (third positional argument of Program.__init__, or by
+    keyword), the program hands it to its tokenizer."""
+    pi = repo.func("chameleon.program.ElementProgram.__init__")
+    prm = [x.arg for x in pi.node.args.args]
+    pos = prm.index("filename") - 1 if "filename" in prm else None
+    calls = [c for c in ast.walk(pi.node) if isinstance(c, ast.Call)
+             and src(c.func) == "tokenizer"]
+    rep.check(pos is not None and bool(calls) and all(
+        any(src(a_) == "filename" for a_ in list(c.args) +
+            [k.value for k in c.keywords]) for c in calls),
+        rule, pi.qualname, "the program hands its file name to the "
+        "tokenizer", construct="filename-chain:program", where=L.where(pi))
+    pp = repo.func("chameleon.zpt.template.PageTemplate.parse")
+    progs = [c for c in ast.walk(pp.node) if isinstance(c, ast.Call)
+             and src(c.func) == "MacroProgram"]
+    okp = bool(progs) and pos is not None
+    for c in progs:
+        if any(isinstance(a_, ast.Starred) for a_ in c.args):
+            continue
+        val = c.args[pos] if pos is not None and len(c.args) > pos else \
+            next((k.value for k in c.keywords if k.arg == "filename"), None)
+        if val is None or src(val) != "self.filename":
+            okp = False
+    rep.check(okp, rule, pp.qualname, "parse() hands the template's file "
+              "name to the program (tokens of deferred errors are pickled "
+              "with it; nothing adds it later)",
+              construct="filename-chain:parse", where=L.where(pp))
 
 
 # ---------------------------------------------------------------------------
